@@ -795,9 +795,11 @@ Mutate ==
 
 Rename ==
   /\ lvl = 0 \/ (lvl = 1 /\ Ren2)
-  \* the class renamings of a MUTANT only in the large configuration (Lvl = 2): they triple the
-  \* neighbourhoods of the small one for little (the base programs mix the classes already)
-  /\ \E c \in (IF lvl = 0 \/ Lvl = 2 THEN Renamings(q) ELSE {x \in Renamings(q) : x.kind[1] \notin ClassRenamings}) :
+  \* the class renamings of a MUTANT: only the uniform one, and only in the large configuration
+  \* (Lvl = 2); they would triple the neighbourhoods for little (the base programs mix the classes)
+  /\ \E c \in (IF lvl = 0 THEN Renamings(q)
+               ELSE {x \in Renamings(q) : x.kind[1] \notin ClassRenamings
+                                          \/ (Lvl = 2 /\ x.kind[1] = "rename-coefficient-classes-uniform")}) :
        LET r == CanonRep(c.q) IN
        /\ q' = c.q /\ kind' = kind \o c.kind /\ lvl' = lvl + 2
        /\ rep' = r /\ renok' = (r = rep) /\ srep' = StripRep(c.q)
